@@ -313,7 +313,12 @@ class Sim:
     disconnect = shutdown)."""
 
     def __init__(self, topology, schedule, attached=False, nclients=1,
-                 send_fail_mode='silent', max_actions=20000, policy=None):
+                 send_fail_mode='silent', max_actions=20000, policy=None,
+                 rseed=0):
+        # the scheduler's own random choices (assign_tasks) are pinned so
+        # that a run is a pure function of its arguments
+        import random as _random
+        _random.seed(rseed)
         self.policy = policy
         self.schedule = list(schedule) or [0]
         self.sched_i = 0
@@ -518,10 +523,23 @@ class Sim:
 
     # -- execution
     def flush(self, node):
+        if getattr(node, '_vt_outgoing_dead', False):
+            return
         try:
             node.send_outgoing()
         except StopLoop:
             pass
+        except Exception:
+            # an exception send_outgoing does not handle (e.g. BrokenPipeError)
+            # ends the real outgoing thread: nothing is sent any more
+            node._vt_outgoing_dead = True
+            self.trace.append(('outgoing-thread-died', self._name_of(node)))
+
+    def _name_of(self, node):
+        for k, v in self.nodes.items():
+            if v is node:
+                return k
+        return '?'
 
     def kill(self, name):
         """Crash a node: its links close (buffered data stays deliverable and
